@@ -182,6 +182,43 @@ func DecodeMode(k Kind, s string, mode int) (o Obj, recv Obj, err error, pan *Pa
 	return
 }
 
+// AutoMode derives the receiver mode from the string itself (stable, so that a replay uses the same
+// mode): half of the strings get a fresh constructor result, a quarter a nil receiver, a quarter a
+// constructor result that was queried before Decode.
+func AutoMode(s string) int {
+	h := uint32(2166136261)
+	for i := 0; i < len(s); i++ {
+		h = (h ^ uint32(s[i])) * 16777619
+	}
+	switch (h >> 7) % 4 {
+	case 2:
+		return RecvNil
+	case 3:
+		return RecvQueried
+	}
+	return RecvFresh
+}
+
+// DecodeAuto decodes s with the receiver mode AutoMode(s) gives.
+func DecodeAuto(k Kind, s string) (Obj, error, *Panic) {
+	o, _, err, pan := DecodeMode(k, s, AutoMode(s))
+	return o, err, pan
+}
+
+// DecodeReused decodes first on a fresh receiver and then s on the SAME receiver.  ok is false when the
+// second decode was rejected (the usual answer of the library: re-use is not supported).
+func DecodeReused(k Kind, first, s string) (o Obj, ok bool, pan *Panic) {
+	recv := New(k)
+	if _, _, p := DecodeOn(recv, first); p != nil {
+		return Obj{Kind: k}, false, p
+	}
+	o, err, p := DecodeOn(recv, s)
+	if p != nil {
+		return o, false, p
+	}
+	return o, err == nil && !o.IsNil(), nil
+}
+
 // Obs is one complete observation of an object's queries.
 type Obs struct {
 	Score  float64
